@@ -201,9 +201,9 @@ theorem registerExpects_refuses :
 after a panic with the error when it is not nil: the model's `convertOut` -/
 theorem convert_eq :
     convertNumOutCases = "1,2" ∧
-    convertAppendCond = "len(out) < numOut" ∧ convertAppended = "out = append(out, reflect.Zero(errorType))" ∧
-    convertTrimCond = "numOut < len(out)" ∧
-    convertTrimBody = "if !out[1].IsNil() { panic(out[1].Interface()) } ; out = out[:1]" := by decide
+    convertAppendCond = "len(OUT) < numOut" ∧ convertAppended = "OUT = append(OUT, reflect.Zero(errorType))" ∧
+    convertTrimCond = "numOut < len(OUT)" ∧
+    convertTrimBody = "if !OUT[1].IsNil() { panic(OUT[1].Interface()) } ; OUT = OUT[:1]" := by decide
 
 /-- a config error inside the closure of a component-constructor factory: panic for `func() Plugin`, the error result
 for `func() (Plugin, error)` — the model's `callFac (.wrapPlugin numOut)` -/
